@@ -9,7 +9,7 @@ from ..views import V
 from .. import corpus
 from .gen_access import hdr_field, level_geometry
 
-SERVES = {"C03", "C04", "C05", "C06", "C11", "C15", "C16", "C17", "C18", "C19", "C01", "C10"}
+SERVES = {"C02", "C03", "C04", "C05", "C06", "C11", "C15", "C16", "C17", "C18", "C19", "C01", "C10"}
 GH_N = [("unsigned long", "sbv_n")]
 SMALL = 1 << 16
 PB = ["kissat", "z3", "cvc5", "minisat"]
@@ -236,7 +236,10 @@ def type_trait_contracts(cs, tier):
     for name, labels in g.type_trait_roots:
         f = u.root("r_ty_" + name)
         post = [(lab, "((RET >> %d) & 1UL) == 1UL" % k) for k, lab in enumerate(labels)]
-        out.append(Contract(f, "%s:type-level traits %s" % (cs.name, name), props={"C18"}, pre=[], post=post, assigns=[]))
+        # the representation type of a field is part of "the getter returns exactly the encoded value" (a uint64 decoded through an int64 wrapper
+        # has the same bits and another value): the level roots also serve C02
+        props = {"C18", "C02"} if name.startswith(("msg_", "grp_")) else {"C18"}
+        out.append(Contract(f, "%s:type-level traits %s" % (cs.name, name), props=props, pre=[], post=post, assigns=[]))
     return out
 
 
